@@ -24,6 +24,18 @@ func cmdC10(r *RNG, n int, e *Emitter, args []string) {
 			x += int64(S * (0.6 + r.Float()))
 			y += int64(S * (r.Float() - 0.5) * 1.5)
 		}
+		if r.Intn(5) == 0 {
+			// a loop: the last point repeats the first (either direction, sometimes with a further duplicate)
+			line = genStarShaped(r, 0, 0, 0.6*S, 1.2*S, 3+r.Intn(5))
+			if r.Bool() {
+				line = clip.ReversePath(line)
+			}
+			line = append(line, line[0])
+			if r.Intn(6) == 0 {
+				line = append(line, line[0])
+			}
+			e.Count("shape=loop")
+		}
 		jt := clip.JoinType(r.Intn(4))
 		et := []clip.EndType{clip.Butt, clip.SquareET, clip.RoundET, clip.Joined}[r.Intn(4)]
 		delta := S * (0.05 + 0.25*r.Float())
